@@ -42,7 +42,8 @@ func init() {
 				{Name: "close-at-wake", Variant: "race", Cases: cw, Run: closeAtWake, CaseTimeout: 60 * time.Second, Required: []string{"close_at_wake_cases", "close_reached_stop_while_parked"}},
 				{Name: "close-vs-reconnect", Variant: "race", Cases: n * 2, Run: c17closeReconnect, CaseTimeout: 40 * time.Second, Required: []string{"closes_checked"}},
 				{Name: "scenarios", Variant: "race", Cases: n, Run: c17case, CaseTimeout: 60 * time.Second,
-					Required: []string{"fill_storms", "api_mixes", "close_races", "closes_checked", "pool_samples", "control_loss_before_close"}},
+					Required: []string{"fill_storms", "api_mixes", "close_races", "uneven_fills", "closes_checked", "pool_samples", "control_loss_before_close"}},
+				{Name: "refresh-storm", Variant: "race", Cases: cw, Run: c17refreshStorm, CaseTimeout: 60 * time.Second, Required: []string{"refresh_storms", "ring_refreshes_requested"}},
 			}
 		},
 	})
@@ -201,7 +202,27 @@ func c17case(c *runner.Ctx, i int) {
 		n.Handler = handler
 	}
 	cl.Keyspaces["ks1"] = map[string]string{"class": "org.apache.cassandra.locator.SimpleStrategy", "replication_factor": "1"}
-	scenario := []string{"fill-storm", "api-mix", "close-race"}[i%3]
+	scenario := []string{"fill-storm", "api-mix", "close-race", "uneven-fill"}[i%4]
+	var uneven int32 // while 1, new connections get an uneven handshake: some are dropped at STARTUP, the others answered late
+	if scenario == "uneven-fill" {
+		if size < 3 {
+			size = 3 + r.Intn(4)
+		}
+		slow := time.Duration(200+r.Intn(500)) * time.Millisecond
+		for _, n := range cl.Nodes {
+			n.OnHandshake = func(conn *fakenode.ServerConn, op byte) bool {
+				if op != cqlref.OpStartup || atomic.LoadInt32(&uneven) == 0 {
+					return false
+				}
+				if conn.Index%3 == 1 {
+					conn.Close() // this connect of the fill fails at once
+					return true
+				}
+				time.Sleep(slow) // its siblings succeed, but late
+				return false
+			}
+		}
+	}
 	ctl := perturb.Install(c.Seed*101+int64(i), []int{0, 20, 50, 80}[r.Intn(4)], 2*time.Millisecond, &c.Activity)
 	defer perturb.Uninstall()
 	cfg := newCfg(cl, version)
@@ -209,6 +230,9 @@ func c17case(c *runner.Ctx, i int) {
 	cfg.Timeout = 150 * time.Millisecond
 	cfg.ConnectTimeout = 150 * time.Millisecond
 	cfg.ReconnectionPolicy = &gocql.ConstantReconnectionPolicy{MaxRetries: 2, Interval: time.Millisecond}
+	if scenario == "uneven-fill" {
+		cfg.ConnectTimeout = 2 * time.Second // the late handshakes are to succeed
+	}
 	if r.Intn(3) == 0 {
 		cfg.ReconnectInterval = time.Duration(5+r.Intn(20)) * time.Millisecond
 	}
@@ -337,6 +361,34 @@ func c17case(c *runner.Ctx, i int) {
 			time.Sleep(300 * time.Microsecond)
 			dropSome(rr, 40)
 		}
+		wg.Wait()
+	case "uneven-fill":
+		// every pooled connection is lost; while the pools refill, one connect of each fill fails at once and its
+		// siblings take a few hundred ms, with queries (each a fill trigger on an under-full pool) arriving all the time
+		c.Add("uneven_fills", 1)
+		atomic.StoreInt32(&uneven, 1)
+		rr := rand.New(rand.NewSource(r.Int63()))
+		dropSome(rr, 100)
+		stopQ := make(chan struct{})
+		for g := 0; g < 4; g++ {
+			wg.Add(1)
+			go func(g int) {
+				defer wg.Done()
+				for k := 0; ; k++ {
+					select {
+					case <-stopQ:
+						return
+					default:
+					}
+					c.Guard("Query.Exec", func() { note(sess.Query(fmt.Sprintf("LIST u%d_%d", g, k)).Exec()) })
+					time.Sleep(3 * time.Millisecond)
+				}
+			}(g)
+		}
+		time.Sleep(1800 * time.Millisecond)
+		atomic.StoreInt32(&uneven, 0)
+		time.Sleep(300 * time.Millisecond)
+		close(stopQ)
 		wg.Wait()
 	default:
 		c.Add("close_races", 1)
@@ -636,5 +688,71 @@ func c17closeReconnect(c *runner.Ctx, i int) {
 			sort.Strings(ks)
 			c.Violation("C17:goroutine-leak:"+strings.Join(ks, "+"), fmt.Sprintf("%d goroutines are still running driver code 8 s after Session.Close returned (%v)", len(leaked), tops), map[string]interface{}{"mode": mode, "goroutines": leaked[:minInt(len(leaked), 4)]})
 		}
+	}
+}
+
+// c17refreshStorm: many goroutines ask for an immediate ring refresh at the same time (what control-connection
+// reconnects and pool error handlers do), mixed with debounced requests; every request must be answered, and the
+// session must still close.
+func c17refreshStorm(c *runner.Ctx, i int) {
+	r := c.Rng
+	cl := fakenode.NewCluster(1 + r.Intn(3))
+	ctl := perturb.Install(c.Seed*53+int64(i), []int{0, 30, 60}[r.Intn(3)], time.Millisecond, &c.Activity)
+	defer perturb.Uninstall()
+	_ = ctl
+	cfg := newCfg(cl, 3+i%3)
+	cfg.Timeout = 150 * time.Millisecond
+	cfg.ConnectTimeout = 150 * time.Millisecond
+	var sess *gocql.Session
+	var err error
+	c.Guard("CreateSession", func() { sess, err = cfg.CreateSession() })
+	if err != nil {
+		c.Inconclusive("c17-session", err.Error())
+		return
+	}
+	ng := 2 + r.Intn(7)
+	per := 150 + r.Intn(250)
+	var wg sync.WaitGroup
+	var asked int64
+	for g := 0; g < ng; g++ {
+		wg.Add(1)
+		seed := r.Int63()
+		go func(g int) {
+			defer wg.Done()
+			rr := rand.New(rand.NewSource(seed))
+			for k := 0; k < per; k++ {
+				c.Guard("refreshRing", func() { gocql.VerifRefreshRing(sess) })
+				atomic.AddInt64(&asked, 1)
+				if rr.Intn(8) == 0 {
+					// a debounced request on the side (an UP event for an address the ring does not know)
+					gocql.VerifHandleNodeEvents(sess, []gocql.VerifNodeEvent{{Change: "UP", Host: []byte{10, 9, 7, byte(1 + rr.Intn(200))}, Port: 9042}})
+				}
+				if rr.Intn(4) == 0 {
+					runtime.Gosched()
+				}
+			}
+		}(g)
+	}
+	wg.Wait()
+	c.Add("refresh_storms", 1)
+	c.Add("ring_refreshes_requested", atomic.LoadInt64(&asked))
+	c.Eval(runner.H("c17refreshstorm", i, ng, per), true)
+	c.Guard("Session.Close", sess.Close)
+	c.Add("closes_checked", 1)
+	openL, leaked := c17awaitClosed(c, cl)
+	if len(openL) > 0 {
+		c.Violation("C17:connection-open-after-close", fmt.Sprintf("%d connections the driver dialled are still open after Session.Close returned (after a refresh storm)", len(openL)), map[string]interface{}{"open_connections": openL})
+	}
+	if len(leaked) > 0 {
+		tops := map[string]int{}
+		for _, b := range leaked {
+			tops[topFrameOf(b)]++
+		}
+		var ks []string
+		for k := range tops {
+			ks = append(ks, k)
+		}
+		sort.Strings(ks)
+		c.Violation("C17:goroutine-leak:"+strings.Join(ks, "+"), fmt.Sprintf("%d goroutines are still running driver code after Session.Close returned (%v)", len(leaked), tops), map[string]interface{}{"goroutines": leaked[:minInt(len(leaked), 4)]})
 	}
 }
